@@ -73,61 +73,120 @@ Theorem C11_multipart_iff_upload : forall t p files fmap,
 Proof. exact files_empty_iff. Qed.
 Print Assumptions C11_multipart_iff_upload.
 
-(* ---- headers ---- *)
-(* exact keys: the caller's value wins for every key he supplies; the default stays otherwise *)
-Theorem C11_headers_caller_wins_exact : forall u, keys_unique (map fst u) = true -> forall k v,
-  In (k, v) u -> hlookup k (dict_update default_headers u) = Some v.
-Proof. intros u U k v I. apply update_caller_wins; assumption. Qed.
-Print Assumptions C11_headers_caller_wins_exact.
+(* ---- headers (merge of /repo 7378d1f; finding F20 fixed, guard deleted) ---- *)
+(* the caller's value wins for every header he supplies, whatever its letter case: on the wire
+   (names case-insensitive) that name carries exactly his value.  Hypotheses: the caller's dict has
+   unique keys (any Python dict) and does not itself name one header twice in different cases *)
+Theorem C11_caller_wins_any_case : forall u k v,
+  keys_unique (map fst u) = true -> names_distinct_ci u = true ->
+  In (k, v) u -> wire_values k (merge_headers u) = [v].
+Proof. exact caller_wins_any_case. Qed.
+Print Assumptions C11_caller_wins_any_case.
 
-Theorem C11_headers_default_present : forall u, ~ In "Content-Type" (map fst u) ->
-  hlookup "Content-Type" (dict_update default_headers u) = Some "application/json".
-Proof. exact update_default_kept. Qed.
-Print Assumptions C11_headers_default_present.
-
-(* on the wire header names are case-insensitive.  Full statement: one Content-Type value, the
-   caller's if he supplied one in any case *)
-Definition caller_content_type (u : headers) : option string :=
-  match filter (fun p => String.eqb (lower (fst p)) "content-type") u with
-  | [] => None
-  | p :: _ => Some (snd p)
-  end.
+(* exactly one Content-Type on the wire: the caller's if he supplied one in any case, else the default *)
 Definition C11_content_type_full : Prop := forall u,
   keys_unique (map fst u) = true -> names_distinct_ci u = true ->
-  wire_values "content-type" (dict_update default_headers u) =
+  wire_values "content-type" (merge_headers u) =
   [match caller_content_type u with Some v => v | None => "application/json" end].
+Theorem C11_content_type : C11_content_type_full.
+Proof. exact content_type_on_wire. Qed.
+Print Assumptions C11_content_type.
 
-(* refuted on the faithful model (finding F20): both values are sent *)
-Theorem C11_content_type_refuted : ~ C11_content_type_full.
-Proof.
-  intro H. specialize (H [("content-type", "text/plain")] eq_refl eq_refl).
-  vm_compute in H. discriminate.
-Qed.
-Print Assumptions C11_content_type_refuted.
+Theorem C11_headers_default_present : forall u, has_ct u = false -> keys_unique (map fst u) = true ->
+  merge_headers u = ("Content-Type", "application/json") :: u.
+Proof. intros u H U. unfold merge_headers. rewrite H. apply no_ct_shape; assumption. Qed.
+Print Assumptions C11_headers_default_present.
 
-Theorem C11_caller_wins_refuted : exists u, keys_unique (map fst u) = true /\ names_distinct_ci u = true /\
-  wire_values "content-type" (dict_update default_headers u) = ["application/json"; "text/plain"].
-Proof. exists [("content-type", "text/plain")]. vm_compute. auto. Qed.
+Example C11_headers_examples :
+  merge_headers [("content-type", "text/plain"); ("X-A", "1")] = [("content-type", "text/plain"); ("X-A", "1")] /\
+  wire_values "Content-Type" (merge_headers [("CONTENT-TYPE", "text/plain")]) = ["text/plain"] /\
+  merge_headers [("X-A", "1")] = [("Content-Type", "application/json"); ("X-A", "1")] /\
+  names_distinct_ci [("content-type", "a"); ("X-A", "1")] = true.
+Proof. vm_compute. repeat split. Qed.
 
-(* proved with the finding class as the explicit guard *)
-Theorem C11_content_type_partial : forall u, keys_unique (map fst u) = true -> ct_other_case u = false ->
-  wire_values "content-type" (dict_update default_headers u) =
-  [match hlookup "Content-Type" u with Some v => v | None => "application/json" end].
-Proof. exact wire_content_type. Qed.
-Print Assumptions C11_content_type_partial.
+(* ---- Upload anywhere in the variables => multipart (after /repo dd85cf5; finding
+   C11-model-under-dict fixed, refutation removed).  For every call whose variables hold UNSET only
+   as top-level values (vars_ok):
+   * conversion loses no Upload: the uploads separate_files reaches in the converted tree ct are the
+     Upload objects anywhere in the caller's variables (lists, dicts, set fields of models), in order;
+   * a request is always built (never RError); it is JSON iff there is no Upload at all, otherwise
+     multipart whose operations field is the encoding of null_uploads ct (every file position None:
+     C11_nulled_exact / C11_upload_positions_null), whose map is expected_map (entry i = every path of
+     file i: C11_map_entries, C11_map_lists_exactly_upload_positions) and whose file parts are the
+     distinct Uploads, each once (NoDup, same set). ---- *)
+Definition C11_upload_anywhere_full : Prop := forall url q o vars h t, vars_ok vars = true ->
+  let c := mk_call q o (Some vars) h t in
+  let ct := VDict (convert_dict vars) in
+  map snd (uploads_at [] ct) = all_upload_ids vars /\
+  exists files fmap vj,
+    separate [] ct ([], []) = (null_uploads ct, (files, fmap)) /\
+    NoDup files /\ (forall id, In id files <-> In id (all_upload_ids vars)) /\
+    fmap = expected_map (uploads_at [] ct) files 0 /\
+    to_json (null_uploads ct) = Some vj /\
+    (all_upload_ids vars = [] ->
+       build_request url c = RJson url (merge_headers (match h with Some x => x | None => [] end)) t (body_json q o vj)) /\
+    (all_upload_ids vars <> [] ->
+       build_request url c = RMultipart url h t (body_json q o vj) (fmap_json fmap) (files_parts files)).
+Theorem C11_upload_anywhere : C11_upload_anywhere_full.
+Proof. exact upload_anywhere. Qed.
+Print Assumptions C11_upload_anywhere.
 
-(* ---- Upload anywhere => multipart: refuted for a model below a plain dict (finding
-   C11-model-under-dict): the request is never built, PydanticSerializationError escapes ---- *)
-Definition C11_upload_anywhere_full : Prop := forall url q o vars h t,
-  forallb (fun kv => is_unset (snd kv) || dumped_ok (snd kv)) vars = true ->   (* no UNSET below the top *)
-  build_request url (mk_call q o (Some vars) h t) <> RError.
-Theorem C11_upload_anywhere_refuted : ~ C11_upload_anywhere_full.
-Proof.
-  intro H.
-  apply (H "u" "q" None [("w", VDict [("m", VModel [(mk_mfield "file" None true, VUpload 0)])])] None None);
-    vm_compute; reflexivity.
-Qed.
-Print Assumptions C11_upload_anywhere_refuted.
+(* regression witness of the fixed finding: a model holding an Upload below a plain dict *)
+Example C11_model_under_dict_regression :
+  let vars := [("w", VDict [("m", VModel [(mk_mfield "file" None true, VUpload 0);
+                                           (mk_mfield "name" None false, VLeaf JNull)])])] in
+  vars_ok vars = true /\ all_upload_ids vars = [0] /\
+  build_request "u" (mk_call "q" None (Some vars) None None) =
+  RMultipart "u" None None
+    (JObj [("query", JStr "q"); ("operationName", JNull);
+           ("variables", JObj [("w", JObj [("m", JObj [("file", JNull)])])])])
+    (JObj [("0", JArr [JStr "variables.w.m.file"])]) [("0", 0)].
+Proof. vm_compute. repeat split. Qed.
+
+(* ---- the body: exactly query, operationName, variables; UNSET never sent ----
+   For every call whose request is sent (JSON body or the multipart "operations" field): the body is
+   the object with exactly those three keys in that order, carrying the caller's query and operation
+   name; "variables" is an object whose keys are exactly the caller's top-level keys that are not UNSET,
+   in order; and it is the JSON encoding (to_json) of a tree containing no UNSET anywhere. *)
+Theorem C11_body_exact_unset_never_sent : forall url c b, request_body (build_request url c) = Some b ->
+  exists vj, b = JObj [("query", JStr (c_query c)); ("operationName", opname_json (c_opname c));
+                       ("variables", JObj vj)] /\
+    map fst vj = top_level_keys (c_vars c) /\
+    to_json (VDict (fst (process_variables (c_vars c)))) = Some (JObj vj) /\
+    has_unset (VDict (fst (process_variables (c_vars c)))) = false.
+Proof. exact body_exact. Qed.
+Print Assumptions C11_body_exact_unset_never_sent.
+
+(* the encoder itself: whatever json.dumps(default=to_jsonable_python) encodes has no UNSET in it *)
+Theorem C11_encoder_rejects_unset : forall t j, to_json t = Some j -> has_unset t = false.
+Proof. exact to_json_no_unset. Qed.
+Print Assumptions C11_encoder_rejects_unset.
+
+(* ---- the dotted strings on the wire are unambiguous when keys contain no '.' (GraphQL names):
+   equal renderings have equal segment strings, one by one (decimal indices are proved dot-free) ---- *)
+Theorem C11_render_injective : forall p p', keys_dot_free p = true -> keys_dot_free p' = true ->
+  render_path p = render_path p' -> map seg_to_string p = map seg_to_string p'.
+Proof. exact render_injective. Qed.
+Print Assumptions C11_render_injective.
+
+(* ---- upload bytes: which bytes are "the file".  The clients hand the stream to httpx, which rewinds
+   a seekable stream: the part carries the whole content whatever the position at call time, and
+   re-sending the same Upload (retry, later call, other client) carries the same bytes again ---- *)
+Theorem C11_file_bytes_position_irrelevant : forall u n, up_seekable u = true ->
+  sent_bytes (set_pos n u) = up_content u.
+Proof. exact sent_bytes_position_irrelevant. Qed.
+Print Assumptions C11_file_bytes_position_irrelevant.
+
+Theorem C11_resend_same_bytes : forall n u, up_seekable u = true ->
+  Forall (fun b => b = up_content u) (send_n n u).
+Proof. exact send_n_all_whole. Qed.
+Print Assumptions C11_resend_same_bytes.
+
+(* a non-seekable stream can only be sent from where it stands; a second send finds it exhausted *)
+Theorem C11_nonseekable_resend_empty : forall u, up_seekable u = false ->
+  sent_bytes (after_send u) = EmptyString.
+Proof. exact nonseekable_resend_empty. Qed.
+Print Assumptions C11_nonseekable_resend_empty.
 
 (* ---- client state and schedules (by construction of the model; the tie compares vars(client)
    before/after and concurrent runs with solo runs) ---- *)
